@@ -311,11 +311,20 @@ def source(sc):
     d = scratch_dir("src")
     ev = []
     try:
-        for kinds in [[]] + [list(k) for k in sc.get("variants", [])]:
-            rec = dict(e="src", fmt=("mpc" if sc["case"].endswith(".m") else "raw"), variant="+".join("%s%d" % (k, w) for k, w in kinds) or "as shipped",
+        todo = [[]] + [list(k) for k in sc.get("variants", [])] if sc.get("case") else []
+        todo += [("mpc", seed_, base_) for seed_, base_ in sc.get("generated_mpc", [])]
+        for kinds in todo:
+            gen = isinstance(kinds, tuple)
+            rec = dict(e="src", fmt=("mpc" if gen or sc["case"].endswith(".m") else "raw"),
+                       variant=("generated seed=%d baseMVA=%g" % kinds[1:] if gen else "+".join("%s%d" % (k, w) for k, w in kinds) or "as shipped"),
                        raised=False, converged=True, balanced=True, decided=True)
-            path = case_path(sc["case"])
             what = []
+            if gen:
+                path = os.path.join(d, "gen%d.m" % kinds[1])
+                what.append(srcread.write_matpower(path, kinds[1], kinds[2]))
+                kinds = []
+            else:
+                path = case_path(sc["case"])
             try:
                 for j, (kind, which) in enumerate(kinds):
                     dst = os.path.join(d, "v%d_%d.raw" % (len(ev), j))
@@ -355,9 +364,34 @@ def source(sc):
     return dict(sid=sc["sid"], ev=ev)
 
 
+def source_dyr(sc):
+    """raw + dyr read by the library; every record of the dyr file whose model layout vh/srcread.py knows (transcribed from the
+    PSS/E model documentation) must be carried, value by value, by a device attached to the machine the record names."""
+    andes = andes_mod()
+    from . import srcread
+    from .common import case_path
+    rec = dict(e="src", fmt="dyr", variant=sc["dyr"], raised=False, converged=True, balanced=True, decided=True)
+    try:
+        ss = andes.load(case_path(sc["case"]), addfile=case_path(sc["dyr"]), setup=True, **sys_kwargs())
+        if ss is None:
+            raise RuntimeError("andes.load returned None")
+        r = srcread.compare_dyr(ss, case_path(sc["dyr"]))
+        rec["balanced"] = bool(not r["bad"])
+        rec["checked"] = r["checked"]
+        rec["bad"] = r["bad"][:6]
+        rec["undecided"] = ["%d record(s) of %s" % (n, m) for m, n in sorted(r["skipped"].items())]
+        rec["decided"] = bool(not r["skipped"])
+    except Exception as ex:
+        rec["raised"] = True
+        rec["raised_text"] = "%s: %s" % (type(ex).__name__, str(ex)[:160])
+    return dict(sid=sc["sid"], ev=[rec])
+
+
 def task(sc):
     if sc["kind"] == "source":
         return source(sc)
+    if sc["kind"] == "dyr":
+        return source_dyr(sc)
     if sc["kind"] == "raw":
         return raw_variants(sc)
     return matpower(sc) if sc["kind"] == "matpower" else roundtrip(sc)
